@@ -143,6 +143,49 @@ def refs_well_founded(doc):
     return ok
 
 
+def with_refs(doc, rng):
+    """a variant of a valid document in which operations and path items use shared parameters and responses by $ref, whose
+    schemas refer — directly, through arrays and allOf — to self-recursive and mutually recursive definitions"""
+    import copy
+    d = copy.deepcopy(doc)
+    defs = d.setdefault("definitions", {})
+    defs["Node"] = {"type": "object", "properties": {"next": {"$ref": "#/definitions/Node"}, "v": {"type": "string"}}}
+    defs["Ping"] = {"type": "object", "properties": {"pong": {"$ref": "#/definitions/Pong"}}}
+    defs["Pong"] = {"type": "object", "properties": {"ping": {"$ref": "#/definitions/Ping"}}}
+    defs["Leaf"] = {"type": "integer"}
+    tgt = lambda: rng.choice(["Node", "Ping", "Pong", "Leaf"])
+    sch = lambda: rng.choice([lambda: {"$ref": "#/definitions/" + tgt()},
+                              lambda: {"type": "array", "items": {"$ref": "#/definitions/" + tgt()}},
+                              lambda: {"allOf": [{"$ref": "#/definitions/" + tgt()}, {"type": "object"}]}])()
+    pars = d.setdefault("parameters", {})
+    pars["BodyRec"] = {"in": "body", "name": "body", "schema": {"$ref": "#/definitions/" + rng.choice(["Node", "Ping"])}}
+    pars["BodyAny"] = {"in": "body", "name": "payload", "schema": sch()}
+    pars["Q"] = {"in": "query", "name": "q", "type": "string"}
+    resps = d.setdefault("responses", {})
+    resps["Rec"] = {"description": "recursive", "schema": {"$ref": "#/definitions/" + rng.choice(["Node", "Pong"])}}
+    resps["Any"] = {"description": "any", "schema": sch()}
+    resps["Plain"] = {"description": "plain"}
+    used = False
+    for p, item in (d.get("paths") or {}).items():
+        if p.startswith("x-") or not isinstance(item, dict) or "$ref" in item:
+            continue
+        if rng.random() < 0.3:
+            item["parameters"] = [{"$ref": "#/parameters/" + rng.choice(["BodyRec", "BodyAny", "Q"])}]
+            used = True
+        for m in ("get", "put", "post", "delete", "options", "head", "patch"):
+            op = item.get(m)
+            if not isinstance(op, dict):
+                continue
+            if rng.random() < 0.6:
+                op["parameters"] = [{"$ref": "#/parameters/" + rng.choice(["BodyRec", "BodyAny", "Q"])}]
+                used = True
+            rs = op.get("responses")
+            if isinstance(rs, dict) and rng.random() < 0.7:
+                rs[rng.choice(["default", "200", "404", "default"])] = {"$ref": "#/responses/" + rng.choice(["Rec", "Any", "Plain"])}
+                used = True
+    return d if used else None
+
+
 def run_docs(docs):
     with tempfile.TemporaryDirectory(dir=os.path.join(here, "..", ".work")) as td:
         inp, outp = os.path.join(td, "in.jsonl"), os.path.join(td, "out.jsonl")
@@ -198,6 +241,8 @@ if a.replay:
     json.dump(r, open(a.out, "w"), indent=1)
     sys.exit(1 if r["failures"] else 0)
 
+import random
+rng = random.Random(a.seed)
 with tempfile.TemporaryDirectory(dir=os.path.join(here, "..", ".work")) as td:
     cases = os.path.join(td, "valid.jsonl")
     subprocess.run([sys.executable, os.path.join(here, "validgen.py"), "--seed", str(a.seed), "--n", str(a.n), "--muts", "0", "--subs", "0",
@@ -207,5 +252,8 @@ with tempfile.TemporaryDirectory(dir=os.path.join(here, "..", ".work")) as td:
         c = json.loads(l)
         if c["kind"] == "swagger" and c["go"] is True and not errors(c["j"]) and refs_well_founded(c["j"]):
             docs.append(c["j"])
+            v = with_refs(c["j"], rng)
+            if v is not None and not errors(v) and refs_well_founded(v):
+                docs.append(v)
 r = check(docs)
 json.dump(r, open(a.out, "w"), indent=1)
